@@ -3,7 +3,7 @@ import ast
 from fractions import Fraction
 
 from ..tyob import *  # noqa
-from ..tyob import analyse, expect, item, unmodelled_in, check_forwarder, read_property
+from ..tyob import sibling_defaults, analyse, expect, item, unmodelled_in, check_forwarder, read_property
 from ..poly import Normaliser, Poly, straightline_env
 from ..program import norm_stmt
 
@@ -191,6 +191,10 @@ def run(chk):
     chk.floor("R-KO-ARG", 4)
     chk.floor("R-KO-ZERO", 7)
     chk.floor("R-KO-SIB", 10)
+    sibling_defaults(chk, "R-KO-SIB", [DIRECT, MATRIX, SIG + ".generate_smooth_fa_spectrum", SIG + ".gen_smooth_fa_spectrum"],
+                     label="calc_smooth_fa_spectrum~calc_smoothing_matrix_konno_1998~generate_smooth_fa_spectrum~gen_smooth_fa_spectrum")
+    sibling_defaults(chk, "R-BW", ["eqsig.im.calc_bandwidth_freqs", "eqsig.im.calc_bandwidth_f_min", "eqsig.im.calc_bandwidth_f_max"],
+                     label="calc_bandwidth_freqs~f_min~f_max")
     chk.floor("R-BW", 20)
 
 
